@@ -189,6 +189,5 @@ example :
      y.s.persistInWindow = false) := by
   decide
 
-end Logrange.Props.C17Crash
 
 end Logrange.Props.C17Crash
